@@ -66,14 +66,45 @@ func refCurveInfo(kty, crv int64) (valid bool, size int, alg int64) {
 }
 
 // accepted keys satisfy the consistency rules and re-encode canonically
+
+// c15UsedDest: the destination is fresh, or already holds a decoded EC2 private key with kid and an extra parameter
+func c15UsedDest(k *Key) bool {
+	if vChoose("dest.used", 2) == 0 {
+		return false
+	}
+	prev := nnMap([]*vNodeT{
+		nnInt(0, 1, -1), nnInt(0, 2, -1),
+		nnInt(0, 2, -1), nnBstr(vBlobN("dest.kid", 1, 8), -1),
+		nnInt(1, 0, -1), nnInt(0, 1, -1),
+		nnInt(1, 1, -1), nnBstr(vBlobN("dest.x", 32, 32), -1),
+		nnInt(1, 2, -1), nnBstr(vBlobN("dest.y", 32, 32), -1),
+		nnInt(1, 3, -1), nnBstr(vBlobN("dest.d", 32, 32), -1),
+		nnInt(1, 69, -1), nnInt(0, 7, -1),
+	}, -1)
+	vAssume(k.UnmarshalCBOR(vSer(prev)) == nil)
+	return true
+}
+
 func H_C15_decode() {
 	fp := mkFaultPlan(vChoose("budget", 2))
 	tree := mkConfKeyTree("k", fp)
 	wire, trailing := c05Wire(tree, fp)
 	var k Key
+	used := c15UsedDest(&k)
 	if err := k.UnmarshalCBOR(wire); err != nil {
 		vReach("refused")
 		return
+	}
+	if used {
+		// what a destination held before does not show in the accepted key
+		var fresh Key
+		ferr := fresh.UnmarshalCBOR(wire)
+		vAssert("key: accepted into a used destination => accepted into a fresh one", ferr == nil)
+		if ferr == nil {
+			bu, eu := k.MarshalCBOR()
+			bf, ef := fresh.MarshalCBOR()
+			vAssert("key: same key whatever the destination held before", (eu == nil) == (ef == nil) && (eu != nil || vRopeEq(bu, bf)))
+		}
 	}
 	vAssert("key: nothing after the item", !trailing)
 	vAssert("key: a map", nMajor(tree) == 5 && !nIsIndef(tree))
@@ -176,6 +207,7 @@ func H_C15_gates() {
 		tree = nnMap(pairs, -1)
 	}
 	var k Key
+	c15UsedDest(&k)
 	if k.UnmarshalCBOR(vSer(tree)) != nil {
 		vReach("refused")
 		return
